@@ -343,7 +343,7 @@ let run_line (lineno : int) (tok : string array) =
    | "wsec" -> wr 1 (sec_write (zi 2))
    | "wvt" -> wr 1 (vt_write (zi 2))
    | "bytes" -> let bs = wbytes (get outsT (h 1)).st in add (Printf.sprintf "%d %s" (List.length bs) (hex_of bs))
-   | "in" -> let bs = unhex tok.(2) in Hashtbl.replace insT (h 1) { rest = bs; total = List.length bs }; st 0
+   | "in" | "inpipe" -> let bs = unhex tok.(2) in Hashtbl.replace insT (h 1) { rest = bs; total = List.length bs }; st 0
    | "inw" | "intrunc" | "inpatch" | "inapp" ->
      let bs = wbytes (get outsT (h 2)).st in
      let n = List.length bs in
